@@ -2013,3 +2013,95 @@ func (c *Ctx) r0918(pk *packages.Package) {
 	}
 	c.R.Floor(rule, "grouped operands of constructed binary expressions", n, 8)
 }
+
+// R09.20: no string literal is printed with a live `</script`.
+func (c *Ctx) r0920(pk *packages.Package, rule string) {
+	c.R.Rule(rule, "inside an HTML script element the text `</script` — in any case, followed by white space, `/` or `>` — ends the element, so a JavaScript string must never be printed with it. Authors write `<\\/script>` or `\\x3C/script>`; js.replaceEscapes, which strips unnecessary escapes and decodes `\\x..` / `\\u....`, has to leave those alone and to add the backslash where it is missing. In replaceEscapes (and the helpers it calls) (a) the end tag is recognised by a case-folding comparison of the six letters `script` (bytes.EqualFold / parse.EqualFold), not by comparing with a longer fixed string such as `/script>` — `<\\/script >` and `<\\/SCRIPT>` lost their backslash; (b) the branches that decode a `\\x` and a `\\u` escape each consult that recogniser, so that an escape that would produce the `<` of `</script` stays an escape")
+	info := pk.TypesInfo
+	fd := c.fn(rule, pk, "replaceEscapes")
+	if fd == nil {
+		return
+	}
+	// recognisers: functions of the package whose body folds case over the constant "script"
+	isRecogniser := func(d *ast.FuncDecl) bool {
+		if d == nil || d.Body == nil {
+			return false
+		}
+		hit := false
+		ast.Inspect(d.Body, func(z ast.Node) bool {
+			ce, ok := z.(*ast.CallExpr)
+			if !ok {
+				return true
+			}
+			cn := calleeName(info, ce)
+			if (cn == "bytes.EqualFold" || cn == load.ParseMod+".EqualFold") && len(ce.Args) == 2 {
+				for _, a := range ce.Args {
+					if conv, ok := ast.Unparen(a).(*ast.CallExpr); ok && len(conv.Args) == 1 {
+						if tv, ok := info.Types[conv.Args[0]]; ok && tv.Value != nil && strings.EqualFold(constant.StringVal(tv.Value), "script") {
+							hit = true
+						}
+					}
+				}
+			}
+			return true
+		})
+		return hit
+	}
+	callsRecogniser := func(n ast.Node) bool {
+		hit := false
+		ast.Inspect(n, func(z ast.Node) bool {
+			ce, ok := z.(*ast.CallExpr)
+			if !ok {
+				return true
+			}
+			if fo, _ := callee(info, ce).(*types.Func); fo != nil && fo.Pkg() == pk.Types && isRecogniser(load.Func(pk, fo.Name())) {
+				hit = true
+			}
+			return true
+		})
+		return hit
+	}
+	// (a) fixed strings that contain "script" compared in replaceEscapes
+	fixed := 0
+	ast.Inspect(fd.Body, func(z ast.Node) bool {
+		ce, ok := z.(*ast.CallExpr)
+		if !ok || calleeName(info, ce) != "bytes.Equal" {
+			return true
+		}
+		for _, a := range ce.Args {
+			if conv, ok := ast.Unparen(a).(*ast.CallExpr); ok && len(conv.Args) == 1 {
+				if tv, ok := info.Types[conv.Args[0]]; ok && tv.Value != nil && strings.Contains(strings.ToLower(constant.StringVal(tv.Value)), "script") {
+					fixed++
+					c.R.Bad(rule, fmt.Sprintf("js.replaceEscapes/end tag recognised whatever its case and tail#%d", fixed), c.pos(ce), "the end of a script element is looked for with bytes.Equal(…, "+str(conv.Args[0])+"): `</script >`, `</SCRIPT>`, `</script/>` end a script element just as well and are not recognised — `a=\"<\\/script >\"` is printed as `a=\"</script >\"`, which cuts the script element short")
+				}
+			}
+		}
+		return true
+	})
+	rec := callsRecogniser(fd.Body)
+	if fixed == 0 {
+		c.R.Check(rec, rule, "js.replaceEscapes/end tag recognised whatever its case and tail#1", c.pos(fd), "through a case-folding comparison of `script`", "replaceEscapes does not look for `</script` at all: an unnecessary escape `<\\/script>` is stripped and the string ends the script element")
+	}
+	// (b) the decoding branches
+	for _, br := range []struct{ lit, name string }{{"'x'", "\\x"}, {"'u'", "\\u"}} {
+		var branch *ast.IfStmt
+		ast.Inspect(fd.Body, func(z ast.Node) bool {
+			ifs, ok := z.(*ast.IfStmt)
+			if !ok || branch != nil {
+				return true
+			}
+			cs := nospace(str(ifs.Cond))
+			if strings.HasPrefix(cs, "c=="+br.lit) || strings.Contains(cs, "&&c=="+br.lit) || strings.HasPrefix(cs, br.lit+"==c") {
+				branch = ifs
+			}
+			return true
+		})
+		construct := "js.replaceEscapes/" + br.name + " escape not decoded into the `<` of an end tag"
+		if branch == nil {
+			c.R.Unres(rule, construct, c.pos(fd), "the branch that decodes "+br.name+" escapes was not found")
+			continue
+		}
+		guard := callsRecogniser(branch.Cond) || callsRecogniser(branch.Body)
+		c.R.Check(guard, rule, construct, c.pos(branch), "the branch consults the end tag recogniser", "a "+br.name+" escape is decoded without looking at what follows: `a=\""+br.name+"3C/script>\"` (written that way to keep the string out of the HTML parser's sight) is printed as `a=\"</script>\"`")
+	}
+}
